@@ -111,6 +111,19 @@ def pattern_of_class(ctx, cq):
     # find the base-constructor call  X.__init__(self, <pattern>)
     for n in ast.walk(init.node):
         if isinstance(n, ast.Call) and isinstance(n.func, ast.Attribute) \
+                and n.func.attr == "__init__" and isinstance(
+                    n.func.value, ast.Call) and src(n.func.value) \
+                == "super()" and len(n.args) == 1:
+            # super().__init__(<pattern>): the next class along the MRO
+            nxt = [k for k in m.mro(init.cls.qualname)[1:]
+                   if k in m.classes and "__init__" in m.classes[k].methods]
+            if nxt and base in m.mro(nxt[0]):
+                try:
+                    return fold_local(m, init, n.args[0])
+                except Unfoldable as e:
+                    raise AnalysisError("cannot fold pattern of %s: %s"
+                                        % (cq, e))
+        if isinstance(n, ast.Call) and isinstance(n.func, ast.Attribute) \
                 and n.func.attr == "__init__" and len(n.args) == 2:
             tgt = m.resolve(init.module, n.func.value)
             if tgt and base in m.mro(tgt):
